@@ -332,7 +332,7 @@ func (so *Sorts) sortOf(t types.Type) string {
 		}
 		return name
 	case *types.Tuple:
-		return "Tuple"
+		return "GoTuple"
 	case *types.TypeParam:
 		return "Iface"
 	}
@@ -442,7 +442,7 @@ func (so *Sorts) zero(t types.Type) T {
 		return T{"nil$Iface", "Iface"}
 	case *types.Array:
 		es := so.sortOf(u.Elem())
-		return T{fmt.Sprintf("((as const %s) %s)", arraySort("Int", es), so.zero(u.Elem()).s), arraySort("Int", es)}
+		return so.ex.constArray("Int", es, so.zero(u.Elem()))
 	case *types.Struct:
 		s := so.sortOf(t)
 		if u.NumFields() == 0 {
@@ -538,7 +538,7 @@ func (ex *Exec) strDistinct() string {
 const prelude = `(set-logic ALL)
 (declare-sort Ref 0)
 (declare-sort Str 0)
-(declare-sort Tuple 0)
+(declare-sort GoTuple 0)
 (declare-const nil Ref)
 (declare-datatypes ((Slice 0)) (((mk$Slice (sl$arr Ref) (sl$off Int) (sl$len Int) (sl$cap Int)))))
 (declare-datatypes ((Iface 0)) (((mk$Iface (if$typ Int) (if$ref Ref)))))
@@ -565,3 +565,20 @@ const prelude = `(set-logic ALL)
 (define-fun min$Int ((x Int) (y Int)) Int (ite (<= x y) x y))
 (define-fun max$Int ((x Int) (y Int)) Int (ite (>= x y) x y))
 `
+
+// constArray: the array mapping every index to v. Literal element values use the solver's constant arrays; other
+// element sorts (strings, references, datatypes with uninterpreted parts), for which cvc5 rejects `as const`, use a
+// declared array with a defining axiom.
+func (ex *Exec) constArray(dom, es string, v T) T {
+	as := arraySort(dom, es)
+	if es == "Int" || es == "Bool" || es == "Real" {
+		return T{fmt.Sprintf("((as const %s) %s)", as, v.s), as}
+	}
+	name := "zeroarr$" + sanitize(dom) + "$" + sanitize(es)
+	if !ex.declared[name] {
+		ex.declared[name] = true
+		ex.decls = append(ex.decls, fmt.Sprintf("(declare-const %s %s)", name, as),
+			fmt.Sprintf("(assert (forall ((i %s)) (! (= (select %s i) %s) :pattern ((select %s i)))))", dom, name, v.s, name))
+	}
+	return T{name, as}
+}
